@@ -215,7 +215,7 @@ for _m in FRAME_MODULES:
         globals()[f'frame_{_m}'] = _f
 
 
-@clause('C14.bounded', min_obl=2)
+@clause('C14.bounded', min_obl=3)
 def bounded(K):
     seed = K.seed
     nh = 300 if K.tier == 'thorough' else 60
@@ -257,6 +257,15 @@ def bounded(K):
     K.bounded('gv_histories', st == 'ok' and r['nbad'] == 0, {'evaluations': r['n'] if st == 'ok' else 0, 'distinct_nontrivial': r['n'] if st == 'ok' else 0,
               'bound': f'{nh} random histories of 1..5 gv()/clean() calls', 'samples': [[{'sps': 8, 'R': 1e9, 'N': 10}, {'sps': 16, 'R': 1e9}]], 'failures': r if st == 'ok' else st})
     from . import C14_purity
+    st1, d1 = native(lambda: C14_purity.run(seed, K.tier, 'fresh'), 1800)
+    st2, d2 = native(lambda: C14_purity.run(seed, K.tier, 'after_other_grid'), 1800)
+    if st1 == 'ok' and st2 == 'ok':
+        diff = sorted(k for k in d1['digests'] if d1['digests'][k] != d2['digests'].get(k))
+        K.bounded('history_independent', not diff, {'evaluations': 2 * len(d1['digests']), 'distinct_nontrivial': len(d1['digests']),
+                  'bound': 'every public function evaluated on grid B in a fresh process and after the same calls on another grid A (sps, R changed); results compared bit-for-bit under one numpy seed',
+                  'samples': list(d1['digests'].items())[:3], 'failures': diff[:8]})
+    else:
+        K.bounded('history_independent', False, {'evaluations': 0, 'failures': [st1, st2, str(d1)[:300], str(d2)[:300]]})
     st, r = native(lambda: C14_purity.run(seed, K.tier), 1800)
     K.bounded('purity_seeded', st == 'ok' and r['nbad'] == 0, {'evaluations': r['n'] if st == 'ok' else 0, 'distinct_nontrivial': r['distinct'] if st == 'ok' else 0,
               'bound': 'every public device/codec/DSP function, 1- and 2-polarisation inputs with/without noise, 2 seeds, write-protected inputs, gv snapshot',
